@@ -558,7 +558,7 @@ def _read_attributes_section(
             name = name_type
             annotation = None
         if annotation is None:
-            with suppress(AttributeError, KeyError, TypeError):
+            with suppress(AttributeError, KeyError, TypeError, ValueError):
                 # Use subscript syntax to fetch annotation from inherited members too.
                 annotation = docstring.parent[name].annotation  # type: ignore[index]
         else:
